@@ -7,7 +7,7 @@ edits of one object must not show through another; C02 `exactly the declared typ
 isomorphic round trip`)."""
 from pyvc.core import ClassDecl, FnDecl
 from pyvc.engine import Target
-from pyvc.types import STR, TOpt, TRef
+from pyvc.types import INT as INT_, STR, TOpt, TRef
 from . import schema
 
 SER = "onnx_ir.serde"
@@ -68,3 +68,63 @@ def add_tensor_shape_target(eng):
     eng.add_target(Target("deserialize_tensor_shape", mod=SER, qual="deserialize_tensor_shape", setup=setup,
         params=dict(proto=TRef("ShapeProtoLike")), requires=["nonnull(proto)"],
         ensures=["fresh(result)"], raises_default=[], modifies=None, assert_mode="raise", ret=TRef("Shape")))
+
+
+def add_graph_annotation_target(eng):
+    """serialize_graph_into: EVERY initializer value and EVERY graph output is handed to _maybe_add_quantization_annotation, on
+    every path through the body of its loop (C02: `No ... attribute of any kind ... is lost`: the input loop skips inputs that are
+    also initializers `to avoid double adding`, so the initializer loop is the only place their quantization annotation is written).
+    Control-flow obligation on the real function in lenient mode: at the end of each body path of the two loops the loop element
+    is the last value annotated, or the path is infeasible.  An element handed to a repository function this contract does not
+    know makes the target undecided (the annotation may have moved there), not failed."""
+    import z3
+    from pyvc.core import Exc, Unsupported
+    from pyvc.sem_stmt import LoopSpec
+    from pyvc.types import VBool, VFunc, VNone, VOpaque
+    eng.add_class(ClassDecl("GraphProtoLike", fields={"name": STR, "doc_string": STR}))
+    eng.add_class(ClassDecl("GraphLike"))
+    KNOWN = ("serialize_value_into", "_should_create_value_info_for_value", "serialize_tensor_into", "serialize_node_into",
+             "_serialize_metadata_props_into")
+
+    def annotate(e, p, args, kwargs, node):
+        p.ghost["$annotated"] = args[1] if len(args) > 1 else kwargs.get("value")
+        return [(p, VNone()), (p.copy(), Exc("AnyException", f"L{node.lineno}:_maybe_add_quantization_annotation"))]
+
+    def known(name):
+        def call(e, p, args, kwargs, node):
+            return [(p, VOpaque("result of " + name)), (p.copy(), Exc("AnyException", f"L{node.lineno}:{name}"))]
+        return VFunc("py", call, name)
+
+    def body_end(what):
+        def check(e, q, s):
+            elem = q.frame.lookup(s.target.id) if hasattr(s.target, "id") else None
+            if elem is None:
+                raise Unsupported(f"loop at L{s.lineno}: the loop target is not a plain name")
+            done = q.ghost.get("$annotated") is elem
+            if not done and q.ghost.get("$escaped") is elem:
+                raise Unsupported(f"loop at L{s.lineno}: the element is handed to {q.ghost.get('$escaped_to')}, which this contract does not know")
+            e.oblige(q, z3.BoolVal(done), "annotated", f"L{s.lineno}:every {what} is handed to _maybe_add_quantization_annotation")
+        return check
+
+    def setup(e, p, env):
+        e.lenient = True
+        e.global_overrides = dict(e.global_overrides)
+        e.global_overrides[(SER, "_maybe_add_quantization_annotation")] = VFunc("py", annotate, "_maybe_add_quantization_annotation")
+        for name in KNOWN:
+            e.global_overrides[(SER, name)] = known(name)
+        orig = e.call_opaque
+
+        def call_opaque(p2, f, args, kwargs, node):
+            if not f.what.startswith(("logger", "logging", "warnings")):
+                for a in list(args) + list(kwargs.values()):
+                    if isinstance(a, VOpaque) and a.what == "element of unmodelled iterable":
+                        p2.ghost["$escaped"], p2.ghost["$escaped_to"] = a, f.what
+            return orig(p2, f, args, kwargs, node)
+        e.call_opaque = call_opaque
+    eng.add_target(Target("serialize_graph_into[annotations]", mod=SER, qual="serialize_graph_into", setup=setup,
+        params=dict(graph_proto=TRef("GraphProtoLike"), from_=TRef("GraphLike"), model_ir_version=TOpt(INT_)),
+        requires=["nonnull(graph_proto)", "nonnull(from_)"], ensures=[], raises_default=[], modifies=None, assert_mode="raise",
+        # loops of serialize_graph_into, in source order: inputs, the set comprehension over the inputs, initializers, nodes, node outputs, outputs (ordinals re-anchored on
+        # the recorded headers, contracts/loop_headers.json, so that a renamed loop variable does not detach the contract)
+        loops={2: LoopSpec(modifies=None, body_end=body_end("initializer")),
+               5: LoopSpec(modifies=None, body_end=body_end("graph output"))}))
